@@ -12,6 +12,9 @@ package main
 //@   callsite[C20] DecodePatch#1 decodes-what-was-read: arg_buf == bs
 //@   callsite[C20] Apply#1 each-patch-applied-to-the-previous-result-in-order: arg_p == patches[rangeindex + 1] && arg_doc == mdoc
 //@   callsite[C20] Printf#1 writes-exactly-the-final-document: arg_format == "%s" && len(arg_a) == 1 && istype(arg_a[0], []byte) && unbox(arg_a[0], []byte) == mdoc && Stdout == old(Stdout)
+//@   callsite[C20] Printf#1 written-only-after-every-patch-was-applied: rangeindex + 1 == len(patches)
+//@   covers[C20] ReadFile#1|Fatalf#1 no-patch-file-is-skipped: true
+//@   covers[C20] Apply#1 no-patch-is-skipped: true
 //@   callsite[C20] Fatalf#1 nothing-written-before-failing: Stdout == old(Stdout)
 //@   callsite[C20] Fatalf#2 nothing-written-before-failing: Stdout == old(Stdout)
 //@   callsite[C20] Fatalf#3 nothing-written-before-failing: Stdout == old(Stdout)
